@@ -217,6 +217,55 @@ def utf8Lossy : Bytes → Bytes
         else fffd ++ utf8Lossy (c1 :: r1)
     else fffd ++ utf8Lossy rest
 
+/-- `std::str::from_utf8(bytes).is_ok()`: well-formed UTF-8 (no overlong form, no surrogate,
+    nothing above U+10FFFF) — the same byte classes as `utf8Lossy` -/
+def validUtf8 : Bytes → Bool
+  | [] => true
+  | b :: rest =>
+    if b < 128 then validUtf8 rest
+    else if 194 ≤ b ∧ b ≤ 223 then
+      (match rest with
+       | c1 :: r1 => isCont c1 && validUtf8 r1
+       | [] => false)
+    else if 224 ≤ b ∧ b ≤ 239 then
+      (match rest with
+       | c1 :: c2 :: r2 => ok3 b c1 && isCont c2 && validUtf8 r2
+       | _ => false)
+    else if 240 ≤ b ∧ b ≤ 244 then
+      (match rest with
+       | c1 :: c2 :: c3 :: r3 => ok4 b c1 && isCont c2 && isCont c3 && validUtf8 r3
+       | _ => false)
+    else false
+
+/-! ## the command-name extractor of the shadow proxy (`src/bin/shadow_proxy.rs::parse_resp_command`)
+
+A third, hand-written reader of client frames: the proxy takes the NAME of a command out of a client
+frame for its logs / statistics (no reply is built from it): first byte `*`, the whole buffer valid
+UTF-8, `split("\r\n")`, at least three pieces, the second begins with `$` → the third, upper-cased. -/
+
+/-- `s.split("\r\n")`: the pieces between non-overlapping CR LF pairs, left to right (n pairs → n + 1 pieces) -/
+def splitCrlf : Bytes → List Bytes
+  | [] => [[]]
+  | [x] => [[x]]
+  | x :: y :: rest =>
+    if x = 13 ∧ y = 10 then [] :: splitCrlf rest
+    else
+      match splitCrlf (y :: rest) with
+      | [] => [[x]]
+      | p :: ps => (x :: p) :: ps
+
+/-- ASCII upper-casing (`str::to_uppercase` restricted to ASCII strings) -/
+def upperA (b : Bytes) : Bytes := b.map (fun c => if 97 ≤ c ∧ c ≤ 122 then c - 32 else c)
+
+/-- `parse_resp_command(data)` -/
+def proxyName (data : Bytes) : Option Bytes :=
+  if data.head? ≠ some 42 then none
+  else if ¬ validUtf8 data then none
+  else
+    match splitCrlf data with
+    | _ :: l1 :: l2 :: _ => if l1.head? = some 36 then some (upperA l2) else none
+    | _ => none
+
 /-! ## the decoders -/
 
 /-- the places where the decoders (two codecs, before / after the fixes) differ -/
